@@ -63,6 +63,21 @@ Section Parse.
     | PErr e => PErr e
     end.
 
+  (* ATOM_EXT / SMALL_ATOM_EXT: Latin-1, every byte one code point, re-encoded as UTF-8 *)
+  Definition latin1_to_utf8 (bs : bytes) : bytes :=
+    concat (map (fun b => if b <? 128 then [b] else [192 + b / 64; 128 + b mod 64]) bs).
+
+  Definition parse_atom_latin1 (lenk : nat) (bs : bytes) : pres :=
+    match rd lenk bs with
+    | None => PErr KEof
+    | Some (l, r) =>
+        if max_atom_size <? l then PErr KTooLarge else
+        match takeN l r with
+        | None => PErr KEof
+        | Some (name, r') => POk (TAtom (latin1_to_utf8 name)) r'
+        end
+    end.
+
   Definition parse_atom_bytes (lenk : nat) (bs : bytes) : pres :=
     match rd lenk bs with
     | None => PErr KEof
@@ -95,10 +110,10 @@ Section Parse.
                      else PErr KChar
                  end
           | 4 => match rd 8 r0 with Some (v, r) => POk (TFloat v) r | None => PErr KEof end
-          | 5 => parse_atom_bytes 2 r0
+          | 5 => parse_atom_latin1 2 r0
           | 6 => parse_atom_bytes 2 r0
           | 7 => parse_atom_bytes 1 r0
-          | 8 => parse_atom_bytes 1 r0
+          | 8 => parse_atom_latin1 1 r0
           | 9 => match rd 1 r0 with
                  | None => PErr KEof
                  | Some (n, r) => if max_tuple_size <? n then PErr KTooLarge else
@@ -225,6 +240,7 @@ Section Parse.
                       match d_inflate cfg r with
                       | None => PErr KFail
                       | Some (plain, consumed) =>
+                          if usz <? len plain then PErr KFail else
                           match parse f plain with
                           | POk t _ => match takeN consumed r with Some (_, r') => POk t r' | None => PErr KFail end
                           | PErr _ => PErr KFail
@@ -270,6 +286,9 @@ Section Parse.
                   | None => PErr KEof
                   | Some (i, r) => match assocb i (d_cache cfg) with Some a => POk (TAtom a) r | None => PErr KTag end
                   end
+          | 32 => atom_of (parse f r0) (fun node r =>
+                    match rd 4 r with None => PErr KEof | Some (id, r1) =>
+                    match rd 4 r1 with None => PErr KEof | Some (cr, r2) => POk (TPort node id cr None) r2 end end)
           | _ => PErr KTag
           end
         end
